@@ -18,7 +18,7 @@ MANIFEST = {
     "jsrt": True,
 }
 
-THEOREMS = []
+THEOREMS = ["C04_render_if_first_truthy", "C04_render_else", "C04_render_for_array", "C04_render_attrs_one_per_attribute"]
 
 
 def norm(nodes):
